@@ -41,6 +41,8 @@ impl<'s> CharString<'s> {
     #[verifier::external_body]
     pub fn new(str: &'s str, use_graphemes: bool) -> (r: CharString<'s>) ensures r.view() == chars_of(str, use_graphemes) { unimplemented!() }
     #[verifier::external_body]
+    pub fn len(&self) -> (r: usize) ensures r == self.view().len() { unimplemented!() }
+    #[verifier::external_body]
     pub fn vt_chars_vec(&self) -> (r: Vec<Character<'s>>) ensures chv(r@) == self.view() { unimplemented!() }
 }
 
